@@ -1,3 +1,3 @@
 import Driver.Loop
-/- stub: no executable model for C11 yet -/
-def main : IO UInt32 := CelerVerif.runDriver (fun (s : Unit) _ => (s, "bad-op")) ()
+import CelerVerif.Model.SafetyDriver
+def main : IO UInt32 := CelerVerif.runDriver CelerVerif.Safety.driverStep ()
